@@ -86,6 +86,9 @@ def process_top(job):
         out['used'] = sorted(res.used)
         out['feas_checks'] = res.feas_checks
         out['undecided'] = sorted(set(res.undecided))
+        if res.normal_paths == 0 and not res.exc_paths and not res.undecided:
+            # every path died as infeasible (e.g. the assumed contract of a callee contradicts the state): nothing was proved
+            out['undecided'].append('no feasible path reaches the end of the function: the check would be vacuous')
         results = solve.discharge_all(res.obligations, timeout_ms, procs=inner_procs, seed=seed, both=(tier == 'thorough'))
         xc = out['xcheck'] = {'samples': 0, 'held': 0, 'violated': 0, 'precondition-false': 0, 'error': 0, 'no-model': 0, 'failed': []}
         for ob, r in zip(res.obligations, results):
